@@ -226,7 +226,10 @@ class InternalCompiler(Compiler):
         if _verif.ON:
             _verif.emit("ic.operands", op="or", order=[int(x) for x in erets])
 
-        if len(erets) <= 2:
+        if len(erets) == 1:
+            # every operand lives on the same qubit: x | x = x
+            qc.cx(erets[0], dest)
+        elif len(erets) <= 2:
             # . Perform the CX between all args and dest
             for i in erets:
                 qc.cx(i, dest)
